@@ -464,12 +464,642 @@ def gen_fun(repo, targets=None):
     return "\n".join(out) + "\n"
 
 
+
+# =======================================================================================
+# back end 3: effect skeletons (Model/Skel.v)
+# =======================================================================================
+# Trusted choices of this back end (DESIGN 5.1, design/C15.md):
+#   * calls whose dotted name starts with one of IGNORED_CALL_PREFIXES (logging) are dropped;
+#   * PURE_BUILTINS / PURE_METHODS are data operations: they are not kept as named calls, but a
+#     statement that contains one (or a subscript, arithmetic, ...) gets an anonymous
+#     "<expr>" call, i.e. a point where an exception may be raised;
+#   * EFFECT_CALLS keep their full source text (arguments and assignment target) as name;
+#   * a store to / a read from a dotted global under GLOBAL_PREFIXES is kept as a named event;
+#   * an `if` condition is *stable* when it contains no call other than pure builtins and every
+#     assignment to a name it mentions happens, outside any loop, in a top-level statement of the
+#     function that precedes the first top-level statement testing that condition.
+PURE_BUILTINS = {"len", "bool", "isinstance", "sum", "any", "all", "str", "int", "list", "dict", "set",
+                 "tuple", "hasattr", "repr", "sorted", "min", "max", "type", "defaultdict", "getattr"}
+PURE_METHODS = {"format", "join", "replace", "encode", "decode", "strip", "startswith", "endswith", "keys",
+                "items", "values", "get", "copy", "update", "append", "add", "clear", "lower", "upper",
+                "split", "extend", "sort", "to_dict"}
+EFFECT_CALLS = {"os.chdir", "os.getcwd", "os.remove", "os.close", "tempfile.mkstemp", "os.unlink"}
+GLOBAL_PREFIXES = ("in_toto.settings.",)
+CATCH_ALL = {"Exception", "BaseException"}
+ARGPARSE_ERROR = ("parser.error",)
+ARGPARSE_PARSE = ("parser.parse_args",)
+MAX_INLINE_DEPTH = 4
+MAX_UNROLL = 4
+
+
+def _ascii(s):
+    return "".join(c if 32 <= ord(c) < 127 else "?" for c in s)
+
+
+class _Subst(ast.NodeTransformer):
+    def __init__(self, mapping):
+        self.mapping = mapping
+
+    def visit_Name(self, node):
+        if node.id in self.mapping and isinstance(node.ctx, ast.Load):
+            return ast.copy_location(_copy(self.mapping[node.id]), node)
+        return node
+
+
+def _copy(node):
+    import copy
+    return copy.deepcopy(node)
+
+
+def _root_name(node):
+    while isinstance(node, (ast.Attribute, ast.Subscript, ast.Starred)):
+        node = node.value
+    return node.id if isinstance(node, ast.Name) else None
+
+
+def _store_roots(target):
+    """names (roots) assigned by a store to this target expression"""
+    if isinstance(target, (ast.Tuple, ast.List)):
+        out = []
+        for e in target.elts:
+            out += _store_roots(e)
+        return out
+    r = _root_name(target)
+    return [r] if r else []
+
+
+def _contains_exit(t):
+    if not isinstance(t, tuple):
+        return False
+    if t and t[0] == "Exit":
+        return True
+    for x in t[1:]:
+        if isinstance(x, tuple) and _contains_exit(x):
+            return True
+        if isinstance(x, list) and any(_contains_exit(y) for y in x):
+            return True
+    return False
+
+
+class Stability:
+    """assignment sites of one function body: name -> [(top_index, in_loop)]"""
+
+    def __init__(self, fn):
+        self.sites = {}
+        self.first_use = {}
+        for i, st in enumerate(fn.body):
+            self._stmt(st, i, False, False)
+        for i, st in enumerate(fn.body):
+            self._uses(st, i)
+
+    def _add(self, name, i, loop):
+        self.sites.setdefault(name, []).append((i, loop))
+
+    def _stmt(self, node, i, loop, nested):
+        for ch in ast.iter_child_nodes(node):
+            self._stmt(ch, i, loop or isinstance(node, (ast.For, ast.While, ast.ListComp, ast.SetComp,
+                                                         ast.DictComp, ast.GeneratorExp)),
+                       nested or isinstance(node, (ast.FunctionDef, ast.Lambda)))
+        if isinstance(node, (ast.Assign, ast.AnnAssign, ast.AugAssign)):
+            targets = node.targets if isinstance(node, ast.Assign) else [node.target]
+            for t in targets:
+                for r in _store_roots(t):
+                    # inside a nested def a plain Name store is local to it; stores through
+                    # subscripts/attributes reach the outer object at an unknown time
+                    if nested and isinstance(t, ast.Name):
+                        continue
+                    self._add(r, i, loop or nested)
+        elif isinstance(node, (ast.For, ast.comprehension)):
+            for r in _store_roots(node.target):
+                self._add(r, i, True)
+        elif isinstance(node, ast.With):
+            for it in node.items:
+                if it.optional_vars is not None:
+                    for r in _store_roots(it.optional_vars):
+                        self._add(r, i, loop or nested)
+        elif isinstance(node, ast.ExceptHandler) and node.name:
+            self._add(node.name, i, loop or nested)
+        elif isinstance(node, ast.Delete):
+            for t in node.targets:
+                for r in _store_roots(t):
+                    self._add(r, i, True)
+        elif isinstance(node, (ast.Global, ast.Nonlocal)):
+            for n in node.names:
+                self._add(n, i, True)
+        elif isinstance(node, ast.NamedExpr):
+            self._add(node.target.id, i, True)
+
+    def _uses(self, node, i):
+        if isinstance(node, ast.If):
+            lab = ast.unparse(node.test)
+            self.first_use.setdefault(lab, i)
+        if isinstance(node, (ast.FunctionDef, ast.Lambda)) and False:
+            return
+        for ch in ast.iter_child_nodes(node):
+            self._uses(ch, i)
+
+    def stable(self, test):
+        for n in ast.walk(test):
+            if isinstance(n, ast.Call):
+                f = n.func
+                if not (isinstance(f, ast.Name) and f.id in PURE_BUILTINS):
+                    return False
+            if isinstance(n, (ast.Await, ast.Yield, ast.YieldFrom, ast.NamedExpr, ast.Lambda)):
+                return False
+        first = self.first_use.get(ast.unparse(test))
+        if first is None:
+            return False
+        for n in ast.walk(test):
+            if isinstance(n, ast.Name):
+                for (j, loop) in self.sites.get(n.id, []):
+                    if loop or j >= first:
+                        return False
+        return True
+
+
+class Skel:
+    """translation of one function (with inlining of nested defs and private module helpers)"""
+
+    def __init__(self, module_tree, rel):
+        self.rel = rel
+        self.module_funcs = {n.name: n for n in module_tree.body if isinstance(n, ast.FunctionDef)}
+        self.inline_count = 0
+
+    # ---- skeleton constructors (python side: tuples) -----------------------------------
+    @staticmethod
+    def seq(items):
+        flat = []
+        for it in items:
+            if it[0] == "Seq":
+                flat += it[1]
+            elif it[0] != "Skip":
+                flat.append(it)
+        if not flat:
+            return ("Skip",)
+        if len(flat) == 1:
+            return flat[0]
+        return ("Seq", flat)
+
+    # ---- expressions -> list of skeleton items in evaluation order ----------------------
+    def safe(self, e):
+        """cannot raise (under the stated conventions) and contains no call"""
+        if e is None or isinstance(e, (ast.Constant, ast.Name)):
+            return True
+        if isinstance(e, ast.Attribute):
+            return self.safe(e.value)
+        if isinstance(e, (ast.Tuple, ast.List, ast.Set)):
+            return all(self.safe(x) for x in e.elts)
+        if isinstance(e, ast.Dict):
+            return all(self.safe(x) for x in e.keys) and all(self.safe(x) for x in e.values)
+        if isinstance(e, ast.Compare):
+            return self.safe(e.left) and all(self.safe(x) for x in e.comparators)
+        if isinstance(e, ast.BoolOp):
+            return all(self.safe(x) for x in e.values)
+        if isinstance(e, ast.UnaryOp) and isinstance(e.op, ast.Not):
+            return self.safe(e.operand)
+        if isinstance(e, ast.JoinedStr):
+            return all(self.safe(x) for x in e.values)
+        if isinstance(e, ast.FormattedValue):
+            return self.safe(e.value) and e.format_spec is None
+        if isinstance(e, ast.Lambda):
+            return True
+        if isinstance(e, ast.Starred):
+            return self.safe(e.value)
+        return False
+
+    def ev(self, e, env, flags):
+        """items for evaluating expression e; flags['unsafe'] is set when something that is not
+        kept as a named call may raise"""
+        if e is None or isinstance(e, (ast.Constant, ast.Name, ast.Lambda)):
+            return []
+        if isinstance(e, ast.Attribute):
+            return self.ev(e.value, env, flags)
+        if isinstance(e, ast.Starred):
+            return self.ev(e.value, env, flags)
+        if isinstance(e, (ast.Tuple, ast.List, ast.Set)):
+            out = []
+            for x in e.elts:
+                out += self.ev(x, env, flags)
+            return out
+        if isinstance(e, ast.Dict):
+            out = []
+            for k, v in zip(e.keys, e.values):
+                out += self.ev(k, env, flags) + self.ev(v, env, flags)
+            return out
+        if isinstance(e, ast.Compare):
+            out = self.ev(e.left, env, flags)
+            for x in e.comparators:
+                out += self.ev(x, env, flags)
+            if any(isinstance(o, (ast.In, ast.NotIn, ast.Lt, ast.Gt, ast.LtE, ast.GtE)) for o in e.ops) \
+                    and not self.safe(e):
+                flags["unsafe"] = True
+            return out
+        if isinstance(e, ast.UnaryOp):
+            if not isinstance(e.op, ast.Not):
+                flags["unsafe"] = True
+            return self.ev(e.operand, env, flags)
+        if isinstance(e, ast.BinOp):
+            flags["unsafe"] = True
+            return self.ev(e.left, env, flags) + self.ev(e.right, env, flags)
+        if isinstance(e, ast.Subscript):
+            flags["unsafe"] = True
+            return self.ev(e.value, env, flags) + self.ev(e.slice, env, flags)
+        if isinstance(e, ast.Slice):
+            return self.ev(e.lower, env, flags) + self.ev(e.upper, env, flags) + self.ev(e.step, env, flags)
+        if isinstance(e, ast.JoinedStr):
+            out = []
+            for x in e.values:
+                out += self.ev(x, env, flags)
+            return out
+        if isinstance(e, ast.FormattedValue):
+            flags["unsafe"] = True
+            return self.ev(e.value, env, flags)
+        if isinstance(e, ast.BoolOp):
+            out = self.ev(e.values[0], env, flags)
+            for x in e.values[1:]:
+                sub = self.ev(x, env, flags)
+                if sub:
+                    out.append(("If", False, "<short-circuit>", self.seq(sub), ("Skip",)))
+            return out
+        if isinstance(e, ast.IfExp):
+            out = self.ev(e.test, env, flags)
+            a, b = self.ev(e.body, env, flags), self.ev(e.orelse, env, flags)
+            if a or b:
+                out.append(("If", False, "<conditional expression>", self.seq(a), self.seq(b)))
+            return out
+        if isinstance(e, (ast.ListComp, ast.SetComp, ast.GeneratorExp, ast.DictComp)):
+            flags["unsafe"] = True
+            gens = e.generators
+            if any(g.is_async for g in gens):
+                raise Unsupported("async comprehension")
+            out = self.ev(gens[0].iter, env, flags)
+            inner = []
+            for c in gens[0].ifs:
+                inner += self.ev(c, env, flags)
+            for g in gens[1:]:
+                inner += self.ev(g.iter, env, flags)
+                for c in g.ifs:
+                    inner += self.ev(c, env, flags)
+            if isinstance(e, ast.DictComp):
+                inner += self.ev(e.key, env, flags) + self.ev(e.value, env, flags)
+            else:
+                inner += self.ev(e.elt, env, flags)
+            if inner:
+                out.append(("Loop", "<comprehension>", self.seq(inner), ("Skip",)))
+            return out
+        if isinstance(e, ast.Call):
+            return self.call(e, env, flags, None)
+        raise Unsupported("skeleton: expression %s at line %s" % (type(e).__name__, getattr(e, "lineno", "?")))
+
+    def call(self, e, env, flags, assign_text):
+        f = e.func
+        name = dotted(f)
+        if name and name.startswith(IGNORED_CALL_PREFIXES):
+            return []
+        for kw in e.keywords:
+            if kw.arg is None:
+                flags["unsafe"] = True
+        # sys.exit / parser.error / parse_args
+        if name == "sys.exit" or name == "exit":
+            if not e.args:
+                return [("Exit", 0)]
+            a = e.args[0]
+            if isinstance(a, ast.Constant) and isinstance(a.value, int) and not isinstance(a.value, bool):
+                return [("Exit", a.value)]
+            if isinstance(a, ast.Constant) and a.value is None:
+                return [("Exit", 0)]
+            raise Unsupported("skeleton: sys.exit with a non-constant status at line %d" % e.lineno)
+        pre = []
+        if not isinstance(f, (ast.Name, ast.Attribute)) or name is None:
+            pre += self.ev(f if not isinstance(f, ast.Attribute) else f.value, env, flags)
+        for a in e.args:
+            pre += self.ev(a, env, flags)
+        for kw in e.keywords:
+            pre += self.ev(kw.value, env, flags)
+        if name in ARGPARSE_ERROR:
+            return pre + [("Exit", 2)]
+        if name in ARGPARSE_PARSE:
+            return pre + [("Call", name), ("If", False, "<argparse: usage error>", ("Exit", 2), ("Skip",))]
+        # inlining: nested defs of the current function, private helpers of the module
+        if isinstance(f, ast.Name):
+            target = env["local_funcs"].get(f.id)
+            if target is None and f.id.startswith("_") and f.id in self.module_funcs:
+                target = self.module_funcs[f.id]
+            if target is not None:
+                return pre + [self.inline(target, e, env)]
+            if f.id in PURE_BUILTINS:
+                flags["unsafe"] = True
+                return pre
+        if isinstance(f, ast.Attribute) and f.attr in PURE_METHODS and name not in EFFECT_CALLS:
+            flags["unsafe"] = True
+            return pre
+        if name in EFFECT_CALLS:
+            text = ast.unparse(e)
+            if assign_text:
+                text = assign_text + " = " + text
+            return pre + [("Call", _ascii(text))]
+        return pre + [("Call", _ascii(name if name else ast.unparse(f)))]
+
+    def inline(self, fn, call, env):
+        if env["depth"] >= MAX_INLINE_DEPTH:
+            raise Unsupported("skeleton: inlining depth exceeded at %s" % fn.name)
+        if fn.args.vararg or fn.args.kwarg:
+            raise Unsupported("skeleton: varargs in inlined %s" % fn.name)
+        params = [a.arg for a in fn.args.args]
+        mapping = {}
+        for p, a in zip(params, call.args):
+            if isinstance(a, (ast.Name, ast.Constant)) or (isinstance(a, ast.Attribute) and dotted(a)):
+                mapping[p] = a
+        for kw in call.keywords:
+            if kw.arg in params and isinstance(kw.value, (ast.Name, ast.Constant)):
+                mapping[kw.arg] = kw.value
+        body = _copy(fn)
+        assigned = {r for n in ast.walk(body) for r in
+                    ([n.id] if isinstance(n, ast.Name) and isinstance(n.ctx, ast.Store) else [])}
+        mapping = {p: a for p, a in mapping.items() if p not in assigned}
+        if mapping:
+            body = _Subst(mapping).visit(body)
+        self.inline_count += 1
+        sub_env = {"local_funcs": dict(env["local_funcs"]), "depth": env["depth"] + 1,
+                   "stab": Stability(body), "prefix": "%s#%d: " % (fn.name, self.inline_count),
+                   "in_loop": env["in_loop"], "force_unstable": env["in_loop"] > 0 or env["force_unstable"]}
+        return ("Scope", self.block(body.body, sub_env))
+
+    # ---- statements -------------------------------------------------------------------
+    def guard(self, items, flags, before=True):
+        if flags.get("unsafe"):
+            pt = ("Call", "<expr>")
+            return [pt] + items if before else items + [pt]
+        return items
+
+    def block(self, stmts, env):
+        out = []
+        for s in stmts:
+            out.append(self.stmt(s, env))
+        return self.seq(out)
+
+    def stmt(self, s, env):
+        if isinstance(s, ast.FunctionDef):
+            env["local_funcs"][s.name] = s
+            return ("Skip",)
+        if isinstance(s, (ast.Pass, ast.Import, ast.ImportFrom)):
+            return ("Skip",)
+        if isinstance(s, ast.Expr):
+            if isinstance(s.value, ast.Constant):
+                return ("Skip",)
+            flags = {}
+            return self.seq(self.guard(self.ev(s.value, env, flags), flags))
+        if isinstance(s, (ast.Assign, ast.AnnAssign, ast.AugAssign)):
+            targets = s.targets if isinstance(s, ast.Assign) else [s.target]
+            value = s.value
+            flags = {}
+            tflags = {}
+            ttext = " = ".join(ast.unparse(t) for t in targets)
+            if isinstance(value, ast.Call) and dotted(value.func) in EFFECT_CALLS and isinstance(s, ast.Assign):
+                items = self.call(value, env, flags, ttext)
+            else:
+                items = self.ev(value, env, flags) if value is not None else []
+            items = self.guard(items, flags)
+            post = []
+            for t in targets:
+                post += self.ev(t, env, tflags) if not isinstance(t, ast.Name) else []
+            items += post
+            if isinstance(s, ast.AugAssign):
+                tflags["unsafe"] = True
+            # reads / writes of designated globals are kept as named events
+            vname = dotted(value) if value is not None else None
+            if vname and vname.startswith(GLOBAL_PREFIXES) and isinstance(s, ast.Assign):
+                items.append(("Call", _ascii(ttext + " = " + vname)))
+            for t in targets:
+                tn = dotted(t)
+                if tn and tn.startswith(GLOBAL_PREFIXES):
+                    items.append(("Call", _ascii(tn + " = " + ast.unparse(value))))
+                    tflags.pop("unsafe", None)
+                elif isinstance(t, ast.Subscript):
+                    tflags["unsafe"] = True
+            return self.seq(self.guard(items, tflags, before=False))
+        if isinstance(s, ast.Return):
+            flags = {}
+            items = self.guard(self.ev(s.value, env, flags), flags)
+            return self.seq(items + [("Return",)])
+        if isinstance(s, ast.Raise):
+            flags = {}
+            items = []
+            if s.exc is not None:
+                if isinstance(s.exc, ast.Call):
+                    for a in s.exc.args:
+                        items += self.ev(a, env, flags)
+                    for kw in s.exc.keywords:
+                        items += self.ev(kw.value, env, flags)
+                    flags.pop("unsafe", None)      # building the message: the raise happens anyway
+                else:
+                    items += self.ev(s.exc, env, flags)
+            return self.seq(items + [("Raise",)])
+        if isinstance(s, ast.Break):
+            return ("Break",)
+        if isinstance(s, ast.Continue):
+            return ("Continue",)
+        if isinstance(s, ast.If):
+            flags = {}
+            pre = self.guard(self.ev(s.test, env, flags), flags)
+            text = ast.unparse(s.test)
+            stable = (not env["force_unstable"]) and env["stab"].stable(s.test)
+            a = self.block(s.body, env)
+            b = self.block(s.orelse, env)
+            return self.seq(pre + [("If", stable, _ascii(env["prefix"] + text), a, b)])
+        if isinstance(s, ast.For):
+            flags = {}
+            pre = self.guard(self.ev(s.iter, env, flags), flags)
+            has_jump = any(isinstance(n, (ast.Break, ast.Continue)) for n in ast.walk(s))
+            if isinstance(s.iter, (ast.Tuple, ast.List)) and isinstance(s.target, ast.Name) and \
+                    1 <= len(s.iter.elts) <= MAX_UNROLL and not has_jump and not s.orelse and \
+                    all(isinstance(x, (ast.Name, ast.Constant)) for x in s.iter.elts):
+                items = []
+                for x in s.iter.elts:
+                    body = [_Subst({s.target.id: x}).visit(_copy(st)) for st in s.body]
+                    items.append(self.block(body, env))
+                return self.seq(pre + items)
+            env["in_loop"] += 1
+            try:
+                body = self.block(s.body, env)
+            finally:
+                env["in_loop"] -= 1
+            orelse = self.block(s.orelse, env)
+            return self.seq(pre + [("Loop", _ascii("for " + ast.unparse(s.target) + " in " + ast.unparse(s.iter)),
+                                    body, orelse)])
+        if isinstance(s, ast.While):
+            flags = {}
+            env["in_loop"] += 1
+            try:
+                cond = self.guard(self.ev(s.test, env, flags), flags)
+                body = self.block(s.body, env)
+            finally:
+                env["in_loop"] -= 1
+            orelse = self.block(s.orelse, env)
+            # 5th component (not printed): the condition part of the body, for harness/skelconf.py
+            return ("Loop", _ascii("while " + ast.unparse(s.test)), self.seq(cond + [body]), self.seq(cond + [orelse]),
+                    self.seq(cond))
+        if isinstance(s, ast.Try):
+            if s.orelse:
+                raise Unsupported("skeleton: try/else at line %d" % s.lineno)
+            body = self.block(s.body, env)
+            catchall = False
+            catches_exit = False
+            hs = []
+            for h in s.handlers:
+                types = []
+                if h.type is None:
+                    catchall = True
+                    catches_exit = True
+                elif isinstance(h.type, ast.Tuple):
+                    types = [dotted(x) for x in h.type.elts]
+                else:
+                    types = [dotted(h.type)]
+                if any(t in CATCH_ALL for t in types):
+                    catchall = True
+                if any(t in ("BaseException", "SystemExit") for t in types):
+                    catches_exit = True
+                hs.append(self.block(h.body, env))
+            if not hs:
+                handler = ("Raise",)
+            else:
+                handler = hs[-1]
+                for h in reversed(hs[:-1]):
+                    handler = ("If", False, "", h, handler)
+            fin = self.block(s.finalbody, env)
+            if catches_exit and _contains_exit(body):
+                # the semantics lets Exit pass every handler (SystemExit is not an Exception)
+                raise Unsupported("skeleton: sys.exit inside a try that catches BaseException/SystemExit, line %d" % s.lineno)
+            return ("Try", body, handler, catchall and bool(hs), fin)
+        if isinstance(s, ast.With):
+            return self.with_items(s.items, s.body, env)
+        if isinstance(s, ast.Assert):
+            flags = {}
+            return self.seq(self.ev(s.test, env, flags) + [("If", False, "<assert>", ("Skip",), ("Raise",))])
+        if isinstance(s, ast.Delete):
+            return ("Call", "<expr>")
+        raise Unsupported("skeleton: statement %s at line %d" % (type(s).__name__, s.lineno))
+
+    def with_items(self, items, body, env):
+        if not items:
+            return self.block(body, env)
+        it = items[0]
+        flags = {}
+        e = it.context_expr
+        if isinstance(e, ast.Call):
+            pre = []
+            for a in e.args:
+                pre += self.ev(a, env, flags)
+            for kw in e.keywords:
+                pre += self.ev(kw.value, env, flags)
+            name = dotted(e.func) or ast.unparse(e.func)
+        else:
+            pre = self.ev(e, env, flags)
+            name = ast.unparse(e)
+        inner = self.with_items(items[1:], body, env)
+        return self.seq(self.guard(pre, flags) + [("With", _ascii(name), inner)])
+
+    def function(self, fn):
+        env = {"local_funcs": {}, "depth": 0, "stab": Stability(fn), "prefix": "", "in_loop": 0,
+               "force_unstable": False}
+        return self.block(fn.body, env)
+
+
+class SkelPrinter:
+    def __init__(self):
+        self.names = {}
+        self.order = []
+
+    def name(self, text):
+        if text not in self.names:
+            self.names[text] = "nm_%d" % len(self.names)
+            self.order.append(text)
+        return self.names[text]
+
+    def pr(self, t, ind=2):
+        k = t[0]
+        sp = " " * ind
+        if k in ("Skip", "Return", "Raise", "Break", "Continue"):
+            return sp + k
+        if k == "Call":
+            return sp + "(Call %s)" % self.name(t[1])
+        if k == "Exit":
+            return sp + "(Exit (%d)%%Z)" % t[1]
+        if k == "Seq":
+            return sp + "(seqs [\n" + ";\n".join(self.pr(x, ind + 2) for x in t[1]) + "])"
+        if k == "If":
+            return sp + "(If %s %s\n%s\n%s)" % ("true" if t[1] else "false", self.name(t[2]),
+                                                self.pr(t[3], ind + 2), self.pr(t[4], ind + 2))
+        if k == "Loop":
+            return sp + "(Loop %s\n%s\n%s)" % (self.name(t[1]), self.pr(t[2], ind + 2), self.pr(t[3], ind + 2))
+        if k == "Try":
+            return sp + "(Try\n%s\n%s\n%s %s\n%s)" % (self.pr(t[1], ind + 2), self.pr(t[2], ind + 2), sp,
+                                                      "true" if t[3] else "false", self.pr(t[4], ind + 2))
+        if k == "Scope":
+            return sp + "(Scope\n%s)" % self.pr(t[1], ind + 2)
+        if k == "With":
+            return sp + "(With %s\n%s)" % (self.name(t[1]), self.pr(t[2], ind + 2))
+        raise Unsupported("printer: %r" % (k,))
+
+
+# (module, qualified function, emitted name)
+SKEL_TARGETS = [
+    ("in_toto/resolver/_resolver.py", "FileResolver.hash_artifacts", "FileResolver_hash_artifacts"),
+    ("in_toto/resolver/_resolver.py", "OSTreeResolver.hash_artifacts", "OSTreeResolver_hash_artifacts"),
+    ("in_toto/resolver/_resolver.py", "DirectoryResolver.hash_artifacts", "DirectoryResolver_hash_artifacts"),
+    ("in_toto/runlib.py", "record_artifacts_as_dict", None),
+    ("in_toto/runlib.py", "_subprocess_run_duplicate_streams", "subprocess_run_duplicate_streams"),
+    ("in_toto/runlib.py", "execute_link", None),
+    ("in_toto/runlib.py", "in_toto_run", None),
+    ("in_toto/runlib.py", "in_toto_mock", None),
+    ("in_toto/runlib.py", "in_toto_record_start", None),
+    ("in_toto/runlib.py", "in_toto_record_stop", None),
+    ("in_toto/runlib.py", "in_toto_match_products", None),
+    ("in_toto/verifylib.py", "run_all_inspections", None),
+    ("in_toto/verifylib.py", "in_toto_verify", None),
+    ("in_toto/in_toto_verify.py", "main", "main_verify"),
+    ("in_toto/in_toto_sign.py", "main", "main_sign"),
+    ("in_toto/in_toto_sign.py", "_verify_metadata", "sign_verify_metadata"),
+    ("in_toto/in_toto_sign.py", "_sign_and_dump_metadata", "sign_sign_and_dump_metadata"),
+    ("in_toto/in_toto_sign.py", "_load_metadata", "sign_load_metadata"),
+    ("in_toto/in_toto_run.py", "main", "main_run"),
+    ("in_toto/in_toto_record.py", "main", "main_record"),
+    ("in_toto/in_toto_match_products.py", "main", "main_match_products"),
+    ("in_toto/in_toto_mock.py", "main", "main_mock"),
+]
+
+
+def gen_skel(repo, targets=None):
+    targets = targets or SKEL_TARGETS
+    pr = SkelPrinter()
+    trees = {}
+    defs = []
+    for rel, qual, name in targets:
+        if rel not in trees:
+            trees[rel] = load(repo, rel)
+        fn = find_function(trees[rel], qual)
+        sk = Skel(trees[rel], rel).function(fn)
+        defs.append("(* %s : %s, line %d *)\nDefinition skel_%s : skel :=\n%s.\n" % (
+            rel, qual, fn.lineno, name or fn.name, pr.pr(sk)))
+    out = ["(* generated by tools/pytrans.py (back end 3: effect skeletons) from %s — do not edit *)" % repo,
+           "From InToto.Model Require Import Base Skel.", ""]
+    for text in pr.order:
+        out.append("Definition %s : str := %s. (* %s *)" % (pr.names[text], coq_str(text),
+                                                             text.replace("*)", "* )").replace("(*", "( *")))
+    out.append("")
+    out += defs
+    out.append("Definition all_skels : list (str * skel) := [")
+    out.append(";\n".join("  (%s, skel_%s)" % (coq_str(name or qual), name or qual) for _, qual, name in targets))
+    out.append("].")
+    return "\n".join(out) + "\n"
+
+
 def main():
     repo, outdir = sys.argv[1], sys.argv[2]
     wanted = sys.argv[3:] or ["Fun.v"]
     os.makedirs(outdir, exist_ok=True)
     status = 0
-    for fname, gen in (("Fun.v", gen_fun),):
+    for fname, gen in (("Fun.v", gen_fun), ("Skel.v", gen_skel)):
         if fname not in wanted:
             continue
         try:
